@@ -58,7 +58,7 @@ def gen_states(rng, cfg, k):
     return lines
 
 def run(ctx):
-    ok = ctx.lean(['AmcVerif.Props.C04', 'AmcVerif.Props.C04b', 'AmcVerif.Props.C04c', 'AmcVerif.Props.C04d', 'AmcVerif.Props.C04e', 'AmcVerif.Props.C04f', 'AmcVerif.Props.C04g'], extra_modules=['AmcVerif.Bridge.SmallSetBridge', 'AmcVerif.Bridge.SmallSetHetBridge'])
+    ok = ctx.lean(['AmcVerif.Props.C04', 'AmcVerif.Props.C04b', 'AmcVerif.Props.C04c', 'AmcVerif.Props.C04d', 'AmcVerif.Props.C04e', 'AmcVerif.Props.C04f', 'AmcVerif.Props.C04g', 'AmcVerif.Props.C04h'], extra_modules=['AmcVerif.Bridge.SmallSetBridge', 'AmcVerif.Bridge.SmallSetHetBridge'])
     n = 60 if ctx.tier == 'quick' else 400
     if not ok:
         n *= 3
